@@ -157,7 +157,38 @@ func TestSequential(t *testing.T) {
 		hx.C.Advance = pacerFirst // the (single) caller really sleeps the wait it is asked for
 		defer func() { pacerFirst, hx.C.Advance = false, false }()
 		c.ClassIf(pacerFirst, "pacing-rule-listed-before-the-reject-rules")
+		if pre := rapid.IntRange(0, 9).Draw(t, "predecessorFamily"); pre >= 1 && pre <= 5 {
+			// the resource carried a rule of another family before (same statistic interval and relation as one of the reject
+			// rules, no traffic yet): the reject rules that replace it count from an empty window of their own
+			like := ms[rapid.IntRange(0, len(ms)-1).Draw(t, "predecessorLike")].r
+			p := &flow.Rule{ID: "pre", Resource: "a", Threshold: 7, StatIntervalInMs: like.StatIntervalInMs, RelationStrategy: like.RelationStrategy, RefResource: like.RefResource, MaxQueueingTimeMs: 10,
+				LowMemUsageThreshold: 9, HighMemUsageThreshold: 3, MemLowWaterMarkBytes: 1024, MemHighWaterMarkBytes: 2048, WarmUpPeriodSec: 3, WarmUpColdFactor: 2}
+			switch pre {
+			case 1:
+				p.TokenCalculateStrategy, p.ControlBehavior = flow.Direct, flow.Throttling
+			case 2:
+				p.TokenCalculateStrategy, p.ControlBehavior = flow.MemoryAdaptive, flow.Reject
+			case 3:
+				p.TokenCalculateStrategy, p.ControlBehavior = flow.MemoryAdaptive, flow.Throttling
+			case 4:
+				p.TokenCalculateStrategy, p.ControlBehavior = flow.WarmUp, flow.Throttling
+			case 5:
+				p.TokenCalculateStrategy, p.ControlBehavior = flow.WarmUp, flow.Reject
+			}
+			var err error
+			if rapid.Bool().Draw(t, "predecessorPerResource") {
+				_, err = flow.LoadRulesOfResource("a", []*flow.Rule{p})
+			} else {
+				_, err = flow.LoadRules([]*flow.Rule{p})
+			}
+			if err != nil || len(flow.GetRulesOfResource("a")) != 1 {
+				t.Fatalf("predecessor rule %+v not accepted: %v", p, err)
+			}
+			perResourceLoad = rapid.Bool().Draw(t, "replacePerResource")
+			c.Class("replaces-a-rule-of-another-family")
+		}
 		load(t, ms)
+		perResourceLoad = false
 		nextID, reloaded := 10, false
 		mixTypes := rapid.IntRange(0, 2).Draw(t, "mixResourceTypes") == 1 // the same resource name under several classifications
 		c.ClassIf(mixTypes, "mixed-resource-classifications")
